@@ -78,7 +78,7 @@ pub(super) fn judge_hist(h: &Hist, out: &Outcome, kf: &KnownFindings) -> HV {
     if eff != nominal {
         let dir = if nominal { "off-but-required" } else { "on-but-not-required" };
         let fp = format!("ldro-rule/{fam}/{dir}");
-        let c = Case { imp, path: 0, sf: m.sf, bw: m.bw, cr: m.cr, freq: m.freq, prior: 0, board: h.board };
+        let c = Case { imp, path: 0, sf: m.sf, bw: m.bw, cr: m.cr, freq: m.freq, prior: 0, board: h.board, variant: 0 };
         if last.decision.map(|d| (d != 0) == eff).unwrap_or(true) {
             if let Some(id) = known(kf, fam, &c, &fp) {
                 return HV::Tolerated(id);
@@ -117,19 +117,31 @@ pub(super) fn replay_hist(case: &Value, kf: &KnownFindings) -> Result<(), Failur
     }
 }
 
+/// the judged modulation request: coding rate and frequency (always a band that admits every bandwidth) vary with the pair
 fn modu(sf: usize, bw: usize) -> Mod {
-    Mod { sf, bw, cr: 0, freq: FREQ }
+    const F: [u32; 4] = [FREQ, 433_175_000, 915_000_000, 470_300_000];
+    Mod { sf, bw, cr: (sf + bw) % 4, freq: F[(sf * 10 + bw) % 4] }
+}
+/// the same pair requested in the 2.4 GHz band (LR1120/LR1121; the other drivers do not refuse it either)
+fn modu_hf(sf: usize, bw: usize) -> Mod {
+    const F: [u32; 4] = [2_400_000_000, 2_403_000_000, 2_479_000_000, 2_500_000_000];
+    Mod { sf, bw, cr: (sf + bw + 1) % 4, freq: F[(sf + bw) % 4] }
 }
 
 /// judged requests per level for one (SF, BW)
 fn requests_for(level: usize, sf: usize, bw: usize) -> Vec<Op> {
-    let m = modu(sf, bw);
+    let mut v = requests_at(level, sf, bw, modu(sf, bw));
+    v.extend(requests_at(level, sf, bw, modu_hf(sf, bw)));
+    v
+}
+
+fn requests_at(level: usize, sf: usize, bw: usize, m: Mod) -> Vec<Op> {
     match level {
         KIND => vec![Op::KMod { m }],
         LORA => vec![
             Op::Tx { m, power: 14, len: 13 },
             // SF6 needs implicit header on SX127x; harmless elsewhere
-            Op::Rx { m, p: Pkt { implicit: sf == 1, len: 32 }, mode: Mode::Single(20), end: RxEnd::Timeout, buf: 256 },
+            Op::Rx { m, p: Pkt::new(sf == 1, 32).with(bw % 2 == 0, sf % 2 == 0, [8, 0, 65_535, 12][(sf + bw) % 4]), mode: Mode::Single(20), end: RxEnd::Timeout, buf: 256 },
             Op::Cad { m },
         ],
         _ => vec![Op::LwTx { m, power: 14, len: 13 }, Op::LwRx { m, ms: Some(20), end: RxEnd::Timeout, buf: 256 }],
@@ -196,7 +208,7 @@ fn account(h: &Hist, out: &Option<Outcome>, v: HV, st: &mut Stats, enumerated: b
     }
 }
 
-pub(super) const RULE: &str = " STATEFUL STAGE (props/hist.rs): the judged (SF, BW) request is the last step of a history executed on ONE driver instance over ONE chip double that forgets like the silicon (SX126x / LR11xx: sleep without retention, NRESET and Reboot lose packet type, RF frequency, modulation and packet parameters, PA settings; SX127x: registers survive sleep, NRESET restores the documented reset values, which are then what the chip holds) and records the configuration in effect when SetTx / SetRx / SetCad (RegOpMode TX / RX / CAD) is commanded; judged is the LowDataRateOptimize value held at that moment (RadioKind level: after set_modulation_params returned) against the 16.38 ms rule for the request of the last step. Chips SX1261, SX1262, SX1276, SX1272, LR1110; levels RadioKind (set_modulation_params after set_channel / set_modulation_params / set_packet_params / set_tx_power / set_sleep warm+cold / reset / init_lora / set_standby / do_tx / do_rx / do_cad), LoRa (prepare_for_tx+tx, prepare_for_rx+rx, prepare_for_cad+cad, listen as judged requests, after prepare_for_tx+tx / prepare_for_rx with rx completed, timed out or never started / listen / cad / rx_switch_channel / sleep warm+cold / init, each with the SAME and with DIFFERENT modulation and packet parameters) and LorawanRadio (tx, setup_rx+rx_single after tx / setup_rx+rx / low_power). ENUMERATED: every prefix of depth 0..=2 over that alphabet (15 LoRa-level, 18 RadioKind-level, 7 adapter-level operations built relative to the judged request) for the 12 boundary pairs and the LoRaWAN pairs, depth 0..=1 for all other pairs (thorough: depth 2 for all 80 pairs, depth 3 for the LoRaWAN LDRO pairs at the LoRa level). RANDOM: proptest histories of 1..=8 prefix operations (shrinking) over the same operations plus continuous_wave, enter_standby, duty-cycle and continuous receive modes. One evaluation = one history; non-trivial = the judged request was executed after a non-empty prefix and was judged (enumerated histories are distinct by construction, random ones are counted by hash when longer than every enumerated one).";
+pub(super) const RULE: &str = " STATEFUL STAGE (props/hist.rs): the judged (SF, BW) request is the last step of a history executed on ONE driver instance over ONE chip double that forgets like the silicon (SX126x / LR11xx: sleep without retention, NRESET and Reboot lose packet type, RF frequency, modulation and packet parameters, PA settings; SX127x: registers survive sleep, NRESET restores the documented reset values, which are then what the chip holds) and records the configuration in effect when SetTx / SetRx / SetCad (RegOpMode TX / RX / CAD) is commanded; judged is the LowDataRateOptimize value held at that moment (RadioKind level: after set_modulation_params returned) against the 16.38 ms rule for the request of the last step. Chips SX1261, SX1262, SX1276, SX1272, LR1110; levels RadioKind (set_modulation_params after set_channel / set_modulation_params / set_packet_params / set_tx_power / set_sleep warm+cold / reset / init_lora / set_standby / do_tx / do_rx / do_cad), LoRa (prepare_for_tx+tx, prepare_for_rx+rx, prepare_for_cad+cad, listen as judged requests, after prepare_for_tx+tx / prepare_for_rx with rx completed, timed out or never started / listen / cad / rx_switch_channel / sleep warm+cold / init, each with the SAME and with DIFFERENT modulation and packet parameters) and LorawanRadio (tx, setup_rx+rx_single after tx / setup_rx+rx / low_power). The judged request's coding rate, frequency (868.1 / 433.175 / 915 / 470.3 MHz), receive packet parameters (CRC, IQ, preamble 8/0/65535/12) and the board options vary with the pair, and every pair is requested a second time in the 2.4 GHz band (2400 / 2403 / 2479 / 2500 MHz). ENUMERATED: every prefix of depth 0..=2 over that alphabet (15 LoRa-level, 18 RadioKind-level, 7 adapter-level operations built relative to the judged request) for the 12 boundary pairs and the LoRaWAN pairs, depth 0..=1 for all other pairs (thorough: depth 2 for all 80 pairs, depth 3 for the LoRaWAN LDRO pairs at the LoRa level). RANDOM: proptest histories of 1..=8 prefix operations (shrinking) over the same operations plus continuous_wave, enter_standby, duty-cycle and continuous receive modes. One evaluation = one history; non-trivial = the judged request was executed after a non-empty prefix and was judged (enumerated histories are distinct by construction, random ones are counted by hash when longer than every enumerated one).";
 
 pub(super) fn stage(ctx: &mut Ctx) {
     let full = ctx.tier == Tier::Thorough;
@@ -238,7 +250,9 @@ pub(super) fn stage(ctx: &mut Ctx) {
                             for pre in hist::prefixes(level, &j, depth) {
                                 let mut ops = pre;
                                 ops.push(j);
-                                let h = Hist { chip, board: 0, level, ops };
+                                // board options vary with the pair (LR1110: 5 option bits, the others 3)
+                                let board = ((sf * 10 + bw) % if hist::family(chip) == "lr1110" { 32 } else { 8 }) as u8;
+                                let h = Hist { chip, board, level, ops };
                                 let (out, v) = run_hist(&h, &kf);
                                 account(&h, &out, v, st, true, 0);
                             }
@@ -253,7 +267,7 @@ pub(super) fn stage(ctx: &mut Ctx) {
     let enumerated_depth = if full { 3 } else { 2 };
     ctx.parallel(|ti, _n, st| {
         let reqs: Vec<Vec<Op>> = [KIND, LORA, LORAWAN].iter().map(|l| all_requests(*l)).collect();
-        let strat = (0usize..HCHIPS.len() * 3, 0u8..4, hist::strategy(10_000, 8));
+        let strat = (0usize..HCHIPS.len() * 3, 0u8..32, hist::strategy(10_000, 8));
         let f = run_proptest(strat, cases, seed ^ 0xC15_0000 ^ ((ti as u64) << 40), st, |(combo, board, (ri, aops)), st| {
             let chip = HCHIPS[combo % HCHIPS.len()];
             let level = combo / HCHIPS.len();
